@@ -508,6 +508,25 @@ impl Sim {
         })
     }
 
+    /// Cancel an actor: its future is dropped the next time it would be polled (i.e. at an await point, as when
+    /// a caller drops a pending future).  An actor that is inside a synchronous section first runs to its next
+    /// await.
+    pub fn cancel(&self, id: ActorId) {
+        self.with(|s| {
+            if s.actors[id].state != AState::Finished {
+                s.actors[id].abort = true;
+                s.actors[id].woken.woken.store(true, Ordering::SeqCst);
+            }
+        });
+    }
+
+    pub fn set_preempt(&self, num: u64, den: u64) {
+        self.with(|s| {
+            s.preempt_num = num;
+            s.preempt_den = den.max(1);
+        });
+    }
+
     /// Take the first recorded actor panic, if any.
     pub fn take_panic(&self) -> Option<(ActorId, &'static str, String)> {
         self.with(|s| {
